@@ -159,6 +159,13 @@ def r1_inventory(rep, facts, cg):
             if tot_found <= tot_allow:
                 rep.ok(R, k, f'x{n} (moved here with a helper that was expanded into this function; {key[1]} {key[2]} sites in `{crate}`: {tot_found} found, {tot_allow} reviewed)', where[key])
                 continue
+        if key[1] == 'assert' and key[2] == 'overflow:Add' and facts.has_body(key[0]):
+            # `i + 1` where `i < xs.len()` was established before (an assert, an enclosing `if`, the index of an enumerate loop): the sum is at most a length
+            adds, guarded = _bounded_increments(facts.body(key[0]))
+            if adds and adds - guarded <= (e['count'] if e else 0):
+                rep.ok(R, k, f'x{n}: {guarded} of {adds} additions are increments of an index already compared with a length (`i < xs.len()` before `i + 1`)'
+                       + (f'; the rest: {e["reason"]}' if e else ''), where[key])
+                continue
         if e is None:
             rep.bad(R, k + '|unreviewed', f'`{key[0]}` contains {n} unreviewed potential panic(s) of kind {key[1]} ({key[2]}) reachable from the entry points: '
                     f'an input that reaches it in a bad state aborts the caller', where[key])
@@ -167,6 +174,27 @@ def r1_inventory(rep, facts, cg):
         else:
             rep.ok(R, k, f'x{n}: {e["reason"]}', where[key])
     rep.check(R, 'roots|floor', len(roots) >= 300 and len(reach) >= 900, f'{len(roots)} roots / {len(reach)} reachable', f'only {len(roots)} roots / {len(reach)} reachable bodies: the inventory lost its entry points')
+
+
+def _bounded_increments(body):
+    """(additions in the function, additions `local + small literal` whose local was compared `local < <expr>.len()` earlier in the function or is an enumerate index)"""
+    adds = [n for n in walk(body['body']) if n.get('k') == 'binary' and n.get('op') == '+' and not n.get('x')]
+    lt = set()
+    for n in walk(body['body']):
+        if n.get('k') == 'binary' and n.get('op') in ('<', '>'):
+            a, b_ = (n['a'], n['b']) if n['op'] == '<' else (n['b'], n['a'])
+            a, b_ = peel(a), peel(b_)
+            if a.get('k') == 'path' and a.get('res') == 'Local' and b_.get('k') == 'mcall' and b_.get('name') == 'len':
+                lt.add((a['path'], n.get('l') or 0))
+        if n.get('k') == 'mcall' and n.get('name') == 'enumerate':
+            lt.add(('@enumerate', n.get('l') or 0))
+    guarded = 0
+    for n in adds:
+        a, b_ = peel(n['a']), peel(n['b'])
+        if b_.get('k') == 'lit' and isinstance(b_.get('v'), int) and 0 <= b_['v'] <= 1024 and a.get('k') == 'path' and a.get('res') == 'Local':
+            if any(nm == a['path'] and l <= (n.get('l') or 0) for nm, l in lt):
+                guarded += 1
+    return len(adds), guarded
 
 
 def r3_unsafe(rep, facts, g):
